@@ -94,7 +94,7 @@ macro_rules! for_each_type {
         $f::<BTreeSet<u16>>($ctx); $f::<BTreeSet<Vec<u8>>>($ctx); $f::<BTreeSet<[u8; 2]>>($ctx);
         $f::<BTreeSet<(u8, u8)>>($ctx); $f::<BTreeSet<[u8; 0]>>($ctx);
         $f::<BTreeMap<u8, u16>>($ctx); $f::<BTreeMap<u16, Vec<u8>>>($ctx); $f::<BTreeMap<Vec<u8>, u8>>($ctx);
-        $f::<BTreeMap<u8, u8>>($ctx); $f::<BTreeMap<Option<u8>, Vec<u16>>>($ctx);
+        $f::<BTreeMap<u8, u8>>($ctx); $f::<BTreeMap<[u8; 0], [u8; 0]>>($ctx); $f::<BTreeMap<Option<u8>, Vec<u16>>>($ctx);
         // bitfields
         $f::<BitList<U0>>($ctx); $f::<BitList<U1>>($ctx); $f::<BitList<U2>>($ctx); $f::<BitList<U7>>($ctx);
         $f::<BitList<U8>>($ctx); $f::<BitList<U9>>($ctx); $f::<BitList<U15>>($ctx); $f::<BitList<U16>>($ctx);
